@@ -70,7 +70,7 @@ func reader_scan_triples(r *Decoder, ectx evaluationContext, r0 cursorio.Decoded
 			nectx.CurSubject = blankNode
 			nectx.CurSubjectLocation = blankNodeRange
 
-			r.pushState(ectx, reader_scan_PredicateObjectList_Continue)
+			r.pushState(nectx, reader_scan_PredicateObjectList_Continue)
 			r.pushState(nectx, reader_scan_PredicateObjectList_Required)
 			fn := scanFunc(func(r *Decoder, ectx evaluationContext, r0 cursorio.DecodedRune, err error) (readerStack, error) {
 				return reader_scan_collection(r, ectx, r0, nectx.CurSubject, nectx.CurSubjectLocation)
